@@ -222,6 +222,12 @@ class J1939_21:
                             if should_break:
                                 break
 
+                        if buf['state'] == self.SendBufferState.SENDING_IN_CTS and buf['next_packet_to_send'] >= buf['num_packages']:
+                            # nothing left to send (e.g. a CTS arrived after the last packet):
+                            # wait for the end of message acknowledge instead of staying due forever
+                            buf['state'] = self.SendBufferState.WAITING_CTS
+                            buf['deadline'] = time.time() + self.Timeout.T3
+
                         # recalc next wakeup
                         if next_wakeup > buf['deadline']:
                             next_wakeup = buf['deadline']
